@@ -23,7 +23,7 @@ ASSUMPTIONS = [
 MANIFEST = {'text': 'proof (all normal paths of the stage) of: no message-carrying value dropped un-drained, no clone, FIFO-only queue API, direct send and store on opposite edges of the '
                     'buffered-lifecycles test, a queue-drain test after every un-buffering, every message passes Lifecycle::new/update (which store `lifecycle` on every path) before it '
                     'is sent or queued, and the stage writes no other message field.'
-                    ' Added: inside the receive loop a message leaves the queue only where its lifecycle is known not to be buffered.'}
+                    ' Added: inside the receive loop a message leaves the queue only where its lifecycle is known not to be buffered. Added: a held-back lifecycle is un-buffered during a scan over the lifecycles only by conditions on time quantities of that lifecycle (the merge logic asserts that confirmation is monotone). Added: own ECU - every keyed access to the ECU -> lifecycles map uses the .ecu field of the message / lifecycle being filed, and Lifecycle::new copies its message\'s ECU. Added: a possibly confirmed lifecycle is merged away only behind the exact count `queued messages of it (+1) == nr_msgs` (shared with C07 P7); bulk removals from the queue inside the receive loop only with nothing buffered.'}
 
 QUEUE_OK = re.compile(r'::(with_capacity|new|push_back|pop_front|is_empty|len|iter|iter_mut|index|into_iter|front|capacity|get|back)$')
 
@@ -55,6 +55,103 @@ def run(F, chk):
         c07.check_relabel(F, st, P3)
         Q5 = chk.rule('Q5', 'inside the receive loop a message leaves the queue only when its lifecycle is known not to be buffered (is_empty / !contains / equal to a just confirmed id)')
         check_queue_release(st, Q5)
+        P7 = chk.rule('P7', 'a possibly confirmed (partly forwarded) lifecycle is merged away only when all of its messages are still queued (queued count == nr_msgs): forwarded messages never keep an id that no longer denotes a lifecycle (shared with C07)')
+        c07.check_merge_needs_all_queued(st, P7)
+        A2 = chk.rule('A2', 'own ECU: every keyed access to the ECU -> lifecycles map uses the `.ecu` field of the very message (or table lifecycle) being filed; inside the receive loop that is the received message handed to Lifecycle::new/update')
+        check_own_ecu(F, st, A2)
+        Q6 = chk.rule('Q6', 'a held-back lifecycle is confirmed (un-buffered while scanning the lifecycles) by time quantities only - the merge logic relies on that')
+        check_confirm_criteria(st, Q6)
+
+
+ECU_MAP = re.compile(r'^(&mut |&)?std::collections::HashMap<adlt::dlt::DltChar4, std::vec::Vec<adlt::lifecycle::Lifecycle>')
+KEYED = re.compile(r'::(entry|get|get_mut|insert|remove|remove_entry|contains_key|get_key_value|try_insert|get_or_insert_with|raw_entry_mut|entry_ref)$')
+
+
+def check_own_ecu(F, st, A2):
+    """"an id that denotes a lifecycle of its own ECU": the lifecycle lists are held per ECU; a message is matched against the
+    list found under a key.  That key must be the message's own `ecu` field - a remembered ECU of an earlier message, a
+    default, or the ECU of another map entry files the message under a foreign ECU and Lifecycle::update labels it with that
+    ECU's lifecycle.  (The stage writes no message field but `lifecycle` (E1), so a copy of msg.ecu stays the message's ECU.)"""
+    from cfg import CFG
+    from facts import Operand
+    b = st.body
+    A2.fn(b.path)
+
+    def key_origin(cfg, body, op, depth=0):
+        pl = cfg.origin_of_operand(op)
+        if pl is None:
+            return None
+        if pl.p and pl.p[-1]['k'] == 'f' and pl.p[-1].get('n') == 'ecu':
+            return pl
+        if depth < 6:
+            sd = cfg.single_def(pl.l)
+            if not pl.p and sd is not None and sd[1] != 'call' and sd[2].rv['k'] in ('use', 'cast'):
+                o = Operand(sd[2].rv['o'])
+                if o.place is not None:
+                    return key_origin(cfg, body, o, depth + 1)
+            # `let (id, ecu) = (m.lifecycle, m.ecu)`: component of a tuple temporary
+            if sd is not None and sd[1] != 'call' and sd[2].rv['k'] == 'agg' and sd[2].rv.get('ak') == 'tuple' and len(pl.p) == 1 and pl.p[0]['k'] == 'f' and pl.p[0]['i'] < len(sd[2].rv['ops']):
+                o = Operand(sd[2].rv['ops'][pl.p[0]['i']])
+                if o.place is not None:
+                    return key_origin(cfg, body, o, depth + 1)
+        return pl
+
+    n = 0
+    for body in [b] + list(F.closures_of(b.path)):
+        cfg = CFG(body)
+        loops = cfg.loops() if body is b else {}
+        labelled = set()
+        for blk in body.calls():
+            t = blk.term
+            if re.search(r'lifecycle::Lifecycle::(new|update)$', t.callee.path):
+                for a in t.args:
+                    if 'DltMessage' in (a.ty or '') and a.place is not None:
+                        o = cfg.origin_of_operand(a)
+                        if o is not None:
+                            labelled.add(o.l)
+        for blk in body.calls():
+            t = blk.term
+            if not t.args or not ECU_MAP.match(t.args[0].ty or '') or not KEYED.search(t.callee.path) or len(t.args) < 2:
+                continue
+            n += 1
+            A2.sites += 1
+            pl = key_origin(cfg, body, t.args[1]) if t.args[1].place is not None else None
+            last = pl.p[-1] if pl is not None and pl.p else None
+            what = t.callee.path.split('::')[-1]
+            if last is None or last['k'] != 'f' or last.get('n') != 'ecu' or last.get('o') not in ('adlt::dlt::DltMessage', 'adlt::lifecycle::Lifecycle'):
+                kd = (body.name_of(pl.l) or '_%d' % pl.l) if pl is not None else 'a constant'
+                A2.violation(('ecu-key-not-own', body.path, what), 'the ECU -> lifecycles map is accessed (%s) at %s with key `%s`, which is not the `.ecu` field of the message / lifecycle being filed: '
+                             'a message can be matched against (and labelled with) the lifecycles of another ECU' % (what, body.loc(t.sp), kd), where=body.loc(t.sp))
+                continue
+            in_loop = any(blk.i in lb for lb in loops.values())
+            if in_loop and labelled and last.get('o') == 'adlt::dlt::DltMessage' and pl.l not in labelled and what in ('entry', 'get_mut'):
+                A2.violation(('ecu-key-not-own', body.path, what), 'inside the receive loop the ECU -> lifecycles map is accessed (%s) at %s with the ecu of `%s`, not of the message that is then labelled' %
+                             (what, body.loc(t.sp), body.name_of(pl.l) or '_%d' % pl.l), where=body.loc(t.sp))
+                continue
+            A2.ok(sample={'map_access': what, 'at': body.loc(t.sp), 'key': '%s.ecu (%s)' % (body.name_of(pl.l) or '_%d' % pl.l, last.get('o').split('::')[-1])})
+    A2.floor('keyed accesses to the ECU map', n, 3)
+    # the lifecycle created for a message carries that message's ECU
+    m = 0
+    for nb in F.order:
+        if not re.search(r'lifecycle::Lifecycle::new$', nb.path) or nb.crate != 'lib':
+            continue
+        cfg = CFG(nb)
+        A2.fn(nb.path)
+        for blk in nb.blocks:
+            if blk.cleanup:
+                continue
+            for s_ in blk.stmts:
+                if s_.k == 'assign' and s_.rv['k'] == 'agg' and s_.rv.get('adt') == 'adlt::lifecycle::Lifecycle' and 'ecu' in s_.rv.get('fields', []):
+                    m += 1
+                    A2.sites += 1
+                    o = Operand(s_.rv['ops'][s_.rv['fields'].index('ecu')])
+                    pl = key_origin(cfg, nb, o) if o.place is not None else None
+                    last = pl.p[-1] if pl is not None and pl.p else None
+                    if last is not None and last['k'] == 'f' and last.get('n') == 'ecu' and last.get('o') == 'adlt::dlt::DltMessage' and pl.l <= nb.arg_count:
+                        A2.ok(sample={'constructor': nb.path, 'ecu': 'msg.ecu'})
+                    else:
+                        A2.violation(('new-lifecycle-ecu-not-own', nb.path), 'Lifecycle::new fills the `ecu` of the new lifecycle at %s from something else than the `.ecu` field of its message argument' % nb.loc(s_.sp), where=nb.loc(s_.sp))
+    A2.floor('Lifecycle constructions in Lifecycle::new', m, 1)
 
 
 def check_queue_api(body, Q1):
@@ -273,6 +370,17 @@ def check_queue_release(st, Q5):
             return None
         return 'every definition of `%s` is the id of a lifecycle just removed from buffered_lcs or of a lifecycle tested as not buffered' % name
 
+    # bulk removals (drain / clear / ..) inside the receive loop release (or lose) whatever is queued: only with nothing buffered
+    for bi in sorted(st.blocks_with('POPX')):
+        if recv_loop is None or bi not in recv_loop:
+            continue
+        Q5.sites += 1
+        why = not_buffered_known(bi)
+        if why == 'buffered_lcs.is_empty()':
+            Q5.ok(sample={'bulk_release_at': body.loc(body.blocks[bi].term.sp), 'justified_by': why})
+        else:
+            Q5.violation(('queue-bulk-release-while-buffered', body.path, st.info[bi].get('what')), 'inside the receive loop the message queue is emptied in bulk (%s) at %s without `buffered_lcs.is_empty()` being known: '
+                         'messages of still unconfirmed (unpublished) lifecycles leave the queue' % (st.info[bi].get('what'), body.loc(body.blocks[bi].term.sp)), where=body.loc(body.blocks[bi].term.sp))
     # path-sensitive: the justification may sit on a branch that joins before the pop (`let site = if id == prune {1} else if
     # !contains(id) {2} else {break}; pop`): explore with one fact that the justifying *edges* set and every pop / receive clears
     from paths import Explorer
@@ -346,3 +454,76 @@ def check_queue_release(st, Q5):
                          '(no buffered_lcs.is_empty(), no !buffered_lcs.contains(id), no equality with the id of a just confirmed lifecycle since the previous pop)' % body.loc(body.blocks[p].term.sp),
                          where=body.loc(body.blocks[p].term.sp), witness={'block_path': ex.witness(p, bad[0])[-40:]} if bad else None)
 
+
+
+# ---------------------------------------------------------------------------------------------
+# Q6: confirmation is decided by times only
+
+TIME_FIELDS = {'id', 'ecu', 'start_time', 'initial_start_time', 'min_timestamp_us', 'max_timestamp_us', 'last_reception_time', 'resume_lc'}
+TIME_METHODS = {'end_time', 'is_resume', 'resume_start_time', 'resume_time'}
+
+
+def check_confirm_criteria(st, Q6):
+    """The merge code states a belief (`assert!(buffered_lcs.contains(&lc2.id))` when the previous lifecycle is still held back):
+    a newer lifecycle of an ECU is never confirmed before an older one.  That follows from the confirmation criteria being
+    monotone in time (start before the horizon, span longer than the maximum delay, end older than the maximum delay).  A
+    criterion on anything else (message counts, ids, ..) can confirm the newest lifecycle first; the next merge then
+    panics and nothing queued is ever forwarded.  Rule: in the loops that scan the lifecycles of an ECU and un-buffer one,
+    the conditions that control the un-buffering read only time fields / time methods of the scanned lifecycle."""
+    body, cfg = st.body, st.cfg
+    E = ExprBuilder(cfg, fold_named=True)
+    Q6.fn(body.path)
+    loops = cfg.loops()
+    n = 0
+    for r in sorted(st.blocks_with('LCS_REMOVE')):
+        inner = None
+        for h, lb in sorted(loops.items(), key=lambda kv: len(kv[1])):
+            if r in lb:
+                inner = (h, lb)
+                break
+        if inner is None:
+            continue
+        h, lb = inner
+        # the loop scans lifecycles: the iterator that drives it (its None edge leaves the loop) yields `&Lifecycle` items
+        elem = None
+        for x in lb:
+            t = body.blocks[x].term
+            if t.k == 'call' and t.callee.path == 'std::iter::Iterator::next' and 'adlt::lifecycle::Lifecycle' in (t.dest.t or '') and 'DltMessage' not in (t.dest.t or '') and t.dest.is_local:
+                nxt = t.d.get('t')
+                if nxt is None or not any(s_ not in lb for s_ in cfg.succ[nxt]):
+                    continue
+                for y in lb:
+                    for s_ in body.blocks[y].stmts:
+                        if s_.k == 'assign' and s_.place.is_local and body.name_of(s_.place.l) and s_.rv['k'] == 'use':
+                            o_ = Operand(s_.rv['o'])
+                            if o_.place is not None and o_.place.l == t.dest.l and [e_['k'] for e_ in o_.place.p] == ['dc', 'f']:
+                                elem = body.name_of(s_.place.l)
+        if elem is None:
+            continue
+        n += 1
+        Q6.sites += 1
+        bad = set()
+        seen_f = set()
+        E0 = ExprBuilder(cfg)
+        for x in sorted(lb):
+            blk = body.blocks[x]
+            if blk.term.k != 'switch' or cfg.dominates(r, x):
+                continue
+            if r not in cfg.reachable_from(x, avoid={h}):
+                continue
+            sc = show(E0.switch_cond(blk))
+            for m in re.finditer(r'\(\*%s\)\.(\w+)' % re.escape(elem), sc):
+                seen_f.add(m.group(1))
+                if m.group(1) not in TIME_FIELDS:
+                    bad.add(m.group(1))
+            for m in re.finditer(r'Lifecycle::(\w+)\(&?\(?\*?%s\b' % re.escape(elem), sc):
+                seen_f.add(m.group(1) + '()')
+                if m.group(1) not in TIME_METHODS:
+                    bad.add(m.group(1) + '()')
+        if bad:
+            Q6.violation(('confirm-criterion-not-time', body.path, ','.join(sorted(bad))), 'a held-back lifecycle can be confirmed (buffered_lcs.remove at %s) depending on %s of the scanned lifecycle, which is not a time quantity: '
+                         'a newer lifecycle can then be confirmed before an older one of the same ECU - the merge logic asserts the opposite, panics, and queued messages are never forwarded' %
+                         (body.loc(body.blocks[r].term.sp), ', '.join(sorted(bad))), where=body.loc(body.blocks[r].term.sp))
+        else:
+            Q6.ok(sample={'unbuffer_at': body.loc(body.blocks[r].term.sp), 'lifecycle_quantities_in_its_conditions': sorted(seen_f)})
+    Q6.floor('un-buffering sites inside a scan over lifecycles', n, 1)
